@@ -1,4 +1,4 @@
-//@serves C05 C06 C07 C08 C09 C10
+//@serves C05 C06 C07 C08 C09 C10 C11
 //@tier A
 //@include prelude/head.rs
 verus! {
